@@ -26,3 +26,6 @@ Proof. reflexivity. Qed.
 
 Lemma bridge_prologue : gen_prologue_is_transcribed = true.
 Proof. reflexivity. Qed.
+
+Lemma bridge_linear_runners : gen_linear_runners_are_transcribed = true.
+Proof. reflexivity. Qed.
